@@ -5,26 +5,30 @@
    Several runs are concatenated, separated by {"e":"reset"}.                                                 *)
 EXTENDS GcProtocol, Json, IOUtils
 Tr == ndJsonDeserialize(IOEnv.GC_TRACE)
-VARIABLE l
-tv == <<gv, l>>
+VARIABLES l, tk          \* tk: the timer has logged 'tick' for the Set it is about to perform
+tv == <<gv, l, tk>>
 IsEv(name) == l <= Len(Tr) /\ Tr[l].e = name /\ l' = l + 1
-Silent(A) == A /\ UNCHANGED l
-TInit == Init /\ l = 1
+Silent(A) == A /\ UNCHANGED <<l, tk>>
+TInit == Init /\ l = 1 /\ tk = FALSE
 \* the timer thread never collects, and every event of the timer thread carries thread tag 1
-TStart   == IsEv("timer_start") /\ Tr[l].th = 0 /\ Start
-TTick    == IsEv("tick") /\ Tr[l].th = 1 /\ Set
-TRequest == IsEv("request") /\ Tr[l].th = 0 /\ Request
-TCollect == IsEv("collect") /\ Tr[l].th = 0 /\
+TStart   == IsEv("timer_start") /\ Tr[l].th = 0 /\ Start /\ UNCHANGED tk
+\* the hook logs 'tick' BEFORE the timer sets the flag (so that a collection that saw the flag is always logged after
+\* the tick): the log line is consumed while the timer is about to set, the Set itself is a later silent step
+TTick    == IsEv("tick") /\ Tr[l].th = 1 /\ timer = "running" /\ tpc = "setting" /\ ~tk /\ tk' = TRUE /\ UNCHANGED gv
+TSet     == tk /\ Set /\ tk' = FALSE /\ UNCHANGED l
+TRequest == IsEv("request") /\ Tr[l].th = 0 /\ Request /\ UNCHANGED tk
+TCollect == IsEv("collect") /\ Tr[l].th = 0 /\ UNCHANGED tk /\
             \/ (ipc = "run" /\ gcRequested /\ Boundary)
             \/ (ipc = "final" /\ gcRequested /\ FinalCollect)
-TExit    == IsEv("timer_exit") /\ Tr[l].th = 1 /\ Exit
-TJoin    == IsEv("join") /\ Tr[l].th = 0 /\ Join
+TExit    == IsEv("timer_exit") /\ Tr[l].th = 1 /\ Exit /\ UNCHANGED tk
+TJoin    == IsEv("join") /\ Tr[l].th = 0 /\ Join /\ UNCHANGED tk
 \* end of the run as seen by the harness. After a normal end the final collector call has happened: it logs a
 \* 'collect' only if there were objects left, so both cases are admitted.
-TEnd     == IsEv("end") /\ ((ipc = "done" /\ UNCHANGED gv) \/ (ipc = "final" /\ FinalCollect))
+TEnd     == IsEv("end") /\ UNCHANGED tk /\ ((ipc = "done" /\ UNCHANGED gv) \/ (ipc = "final" /\ FinalCollect))
 TReset   == IsEv("reset") /\ ipc = "done" /\ timer \in {"none", "joined"}
             /\ gcRequested' = FALSE /\ stopGc' = FALSE /\ timer' = "none" /\ tpc' = "idle" /\ ipc' = "init" /\ hist' = <<>> /\ collectedBy' = {}
-TNext == TStart \/ TTick \/ TRequest \/ TCollect \/ TExit \/ TJoin \/ TEnd \/ TReset
+            /\ tk' = FALSE
+TNext == TStart \/ TTick \/ TSet \/ TRequest \/ TCollect \/ TExit \/ TJoin \/ TEnd \/ TReset
          \/ Silent(Wake) \/ Silent(Check) \/ Silent(Finish) \/ Silent(Throw)
 TSpec == TInit /\ [][TNext]_tv
 NotAccepted == l <= Len(Tr)        \* INVARIANT: violated  <=>  the whole log is explained by the specification
